@@ -194,3 +194,26 @@ def local_defs(fn):
         if isinstance(t, ast.Name) and isinstance(st, ast.Assign):
             out.setdefault(t.id, []).append(v)
     return out
+
+
+def stmts_before(fn, node):
+    """Simple statements executed before `node` on its path (sibling branches not containing it are skipped)."""
+    out = []
+
+    def walk(stmts):
+        for st in stmts:
+            if st is node:
+                return True
+            if any(x is node for x in ast.walk(st)):
+                if isinstance(st, ast.If):
+                    if any(x is node for s in st.body for x in ast.walk(s)):
+                        return walk(st.body)
+                    return walk(st.orelse)
+                if isinstance(st, (ast.For, ast.While, ast.With, ast.Try)):
+                    return walk(st.body)
+                return True
+            if isinstance(st, (ast.Assign, ast.AugAssign, ast.AnnAssign)):
+                out.append(st)
+        return False
+    walk(fn.body)
+    return out
